@@ -96,7 +96,11 @@ func ruleA1Kernel(p *Prog) *RuleResult {
 					continue
 				}
 				c := fmt.Sprintf("%s|operand:%s", fname(f), f.Params[i].Name())
-				if e := sum.mut[i]; e != nil && len(e.cells) > 0 {
+				if e := sum.mut[i]; e != nil && len(e.cells) > 0 && !ifaceNames[f.Name()] && outParamOnly(p, f, i) {
+					// a private helper that fills a container its caller has just created (extract-function
+					// refactoring of a kernel): the parameter is a result buffer, not an operand
+					res.ok(c, p.pos(f.Pos()), "result buffer: every caller passes a container it created itself")
+				} else if e != nil && len(e.cells) > 0 {
 					res.bad(c, p.pos(f.Pos()), fmt.Sprintf("kernel may write its operand %s (cells %v)", f.Params[i].Name(), cellList(e, nil)), firstWitness(e, nil)...)
 				} else {
 					res.ok(c, p.pos(f.Pos()), "")
@@ -180,4 +184,59 @@ func ruleA6Kernel(p *Prog) *RuleResult {
 	}
 	res.Assumptions = append(res.Assumptions, "NE pruning: kernels are only applied to non-empty containers (rules F3 / V2 cover the producer and validator side)")
 	return res
+}
+
+// outParamOnly: f is called at least once and every call passes, for parameter i, a value that the calling
+// function allocated itself (a composite literal, new, or the result of a constructor-like call that the
+// effect summaries know to be fresh) — never one of the caller's own parameters or something loaded from them.
+func outParamOnly(p *Prog, f *ssa.Function, i int) bool {
+	own := p.OWN()
+	calls := 0
+	for _, g := range p.sourceFns() {
+		for _, b := range g.Blocks {
+			for _, ins := range b.Instrs {
+				c, ok := ins.(*ssa.Call)
+				if !ok || c.Call.StaticCallee() != f || i >= len(c.Call.Args) {
+					continue
+				}
+				calls++
+				if !locallyCreated(own, c.Call.Args[i], 0) {
+					return false
+				}
+			}
+		}
+	}
+	return calls > 0
+}
+
+func locallyCreated(own *ownEngine, v ssa.Value, depth int) bool {
+	if depth > 5 {
+		return false
+	}
+	switch x := v.(type) {
+	case *ssa.Alloc:
+		return true
+	case *ssa.Call:
+		if g := x.Call.StaticCallee(); g != nil {
+			if sum := own.Sum(g); sum != nil && len(sum.ret) > 0 {
+				r := sum.ret[0]
+				return r.fresh && len(r.is) == 0 && len(r.isDeep) == 0 && !r.global
+			}
+		}
+	case *ssa.Phi:
+		for _, e := range x.Edges {
+			if c, ok := e.(*ssa.Const); ok && c.IsNil() {
+				continue
+			}
+			if !locallyCreated(own, e, depth+1) {
+				return false
+			}
+		}
+		return true
+	case *ssa.MakeInterface:
+		return locallyCreated(own, x.X, depth+1)
+	case *ssa.ChangeType:
+		return locallyCreated(own, x.X, depth+1)
+	}
+	return false
 }
